@@ -27,7 +27,7 @@ ipc_send = Fn(F, ["impl<T> IpcSender<T> where T: Serialize,", "send"], ret="r", 
     ensures=[
         Clause("ipc.IpcSender.send/ensures.tables_restored_on_every_exit",
                "final(tls).ser_channels@ == old(tls).ser_channels@ && final(tls).ser_regions@ == old(tls).ser_regions@\n"
-               "&& final(tls).de_channels@ == old(tls).de_channels@ && final(tls).de_regions@ == old(tls).de_regions@", ["C14", "C04"]),
+               "&& final(tls).de_channels@ == old(tls).de_channels@ && final(tls).de_regions@ == old(tls).de_regions@", ["C14", "C04", "C05", "C03", "C09"]),
         Clause("ipc.IpcSender.send/ensures.sent_only_own_attachments",
                "old(tls).sent.is_prefix_of(final(tls).sent) && (r is Ok ==> final(tls).sent.len() > old(tls).sent.len())", ["C14", "C04"]),
     ],
@@ -43,7 +43,7 @@ msg_to = Fn(F, ["impl OpaqueIpcMessage", "to"], ret="r", extra_params=TLS,
                "final(tls).de_channels@ == old(tls).de_channels@ && final(tls).de_regions@ == old(tls).de_regions@\n"
                "&& final(tls).ser_channels@ == old(tls).ser_channels@ && final(tls).ser_regions@ == old(tls).ser_regions@", ["C14", "C16"]),
     ],
-    rules=[MutSelf(), T_DE_CH, T_DE_RG, Rule("B7", r"bincode::deserialize\(&self\.data\[\.\.\]\)", "bincode_deserialize(&this.data[..], tls)", "dependency: bincode + the user's Deserialize impls", min_count=1)],
+    rules=[MutSelf(), R_TAKE, T_DE_CH, T_DE_RG, Rule("B7", r"bincode::deserialize\(&self\.data\[\.\.\]\)", "bincode_deserialize(&this.data[..], tls)", "dependency: bincode + the user's Deserialize impls", min_count=1)],
     safety_props=["C16", "C18"])
 
 ser_sender = Fn(F, ["serialize_os_ipc_sender"], ret="r", extra_params=TLS,
@@ -117,7 +117,7 @@ UNIT = Unit(
             ("impl OpaqueIpcMessage", [msg_to]),
             (None, [ser_sender, ser_receiver, de_sender, de_receiver]),
             ("impl IpcSharedMemory", [shm_de, shm_ser])],
-    props=["C04", "C05", "C14", "C16", "C18"],
+    props=["C03", "C04", "C05", "C09", "C14", "C16", "C18"],
     prelude_clauses={
         "unix.OsOpaqueIpcChannel.to_sender/requires.not_already_taken": ["C16"],
         "unix.OsOpaqueIpcChannel.to_receiver/requires.not_already_taken": ["C16"],
